@@ -1353,3 +1353,7 @@ mod tests {
 		);
 	}
 }
+
+#[cfg(feature = "verif-hooks")]
+#[path = "bigrat_verif_hooks.rs"]
+pub(crate) mod verif_hooks;
